@@ -1,8 +1,11 @@
 package main
 
 import (
+	"encoding/json"
 	"fmt"
 	"math/big"
+	"os"
+	"reflect"
 	"sort"
 	"strings"
 
@@ -39,6 +42,8 @@ type immState struct {
 	Bytes [2][]byte
 	T     [2]cty.Type
 	P     cty.PathSet
+	// Conv: conversions looked up once and retained (closures the library returned)
+	Conv [2]convert.Conversion
 	// G: Go data that was passed to a constructor and is still held by the
 	// caller, who mutates it later ("clobber retained arguments")
 	G struct {
@@ -58,7 +63,25 @@ type immOp struct {
 
 var c20Caps = []*capsNative{{20}, {21}, {22}, {23}}
 
-func newImmState() *immState {
+var immStateBuilt bool
+
+// newImmState builds the initial pool.  Once it has succeeded, a later failure means that
+// an explored operation corrupted package-level state of the library (e.g. a shared number
+// such as cty.PositiveInfinity): that is reported as a violation (libraryStatePanic).
+func newImmState() (st *immState) {
+	defer func() {
+		if r := recover(); r != nil {
+			if immStateBuilt {
+				panic(libraryStatePanic{fmt.Sprintf("the constructors that built the initial pool of values at start now panic (%v): an operation explored earlier in this process changed package-level state of the library", r)})
+			}
+			panic(r)
+		}
+		immStateBuilt = true
+	}()
+	return newImmState1()
+}
+
+func newImmState1() *immState {
 	st := &immState{}
 	ints := hashCollidingInts()
 	st.V[0] = cty.ListVal([]cty.Value{cty.NumberIntVal(1), cty.NumberFloatVal(2.5), parseNum("18446744073709551616")})
@@ -82,6 +105,8 @@ func newImmState() *immState {
 	st.T[0] = cty.Object(map[string]cty.Type{"a": cty.String, "b": cty.Tuple([]cty.Type{cty.Number, cty.Bool})})
 	st.T[1] = cty.ObjectWithOptionalAttrs(map[string]cty.Type{"a": cty.List(cty.String), "b": cty.Number}, []string{"b"})
 	st.P = cty.NewPathSet(cty.GetAttrPath("a").IndexInt(0))
+	st.Conv[0] = convert.GetConversionUnsafe(cty.Tuple([]cty.Type{cty.String, cty.Number}), cty.Tuple([]cty.Type{cty.String, cty.String}))
+	st.Conv[1] = convert.GetConversionUnsafe(cty.Map(cty.String), cty.Object(map[string]cty.Type{"k1": cty.String, "k2": cty.String}))
 	return st
 }
 
@@ -112,6 +137,10 @@ func (st *immState) roots() (names []string, objs []interface{}) {
 	}
 	names = append(names, "P")
 	objs = append(objs, st.P)
+	// Go data the caller handed to the library and still holds: the library may read it during
+	// the call but must leave it as it was
+	names = append(names, "G")
+	objs = append(objs, &st.G)
 	return
 }
 
@@ -264,7 +293,11 @@ func c20Ops() []immOp {
 		})
 	})
 	add("V4=stdlib.Format(%v,V0)", "", true, func(st *immState) (cty.Value, bool) {
-		return guard(func() cty.Value { v, err := stdlib.Format(cty.StringVal("%v|%5.1f"), st.V[0], st.V[5]); must(err); return v })
+		return guard(func() cty.Value {
+			v, err := stdlib.Format(cty.StringVal("%v|%5.1f"), st.V[0], st.V[5])
+			must(err)
+			return v
+		})
 	})
 	add("Bytes0=json.Marshal(V0)", "Bytes0", false, func(st *immState) (cty.Value, bool) {
 		return guard(func() cty.Value {
@@ -272,6 +305,24 @@ func c20Ops() []immOp {
 			must(err)
 			st.Bytes[0] = b
 			return cty.StringVal(string(b))
+		})
+	})
+	add("Bytes1=json.Marshal(V4)", "Bytes1", false, func(st *immState) (cty.Value, bool) {
+		return guard(func() cty.Value {
+			u, _ := st.V[4].UnmarkDeep()
+			b, err := ctyjson.Marshal(u, u.Type())
+			must(err)
+			st.Bytes[1] = b
+			return cty.StringVal(string(b))
+		})
+	})
+	add("Bytes0=msgpack.Marshal(V4)", "Bytes0", false, func(st *immState) (cty.Value, bool) {
+		return guard(func() cty.Value {
+			u, _ := st.V[4].UnmarkDeep()
+			b, err := ctymsgpack.Marshal(u, u.Type())
+			must(err)
+			st.Bytes[0] = b
+			return cty.StringVal(fmt.Sprintf("%x", b))
 		})
 	})
 	add("Bytes1=msgpack.Marshal(tuple(V3,V0))", "Bytes1", false, func(st *immState) (cty.Value, bool) {
@@ -311,7 +362,92 @@ func c20Ops() []immOp {
 			return v
 		})
 	})
+	add("V4=Conv0(V1.b) and Conv0(other tuple): a retained conversion applied to two values", "", true, func(st *immState) (cty.Value, bool) {
+		return guard(func() cty.Value {
+			u, _ := st.V[1].Unmark()
+			a, err := st.Conv[0](u.GetAttr("b"))
+			must(err)
+			b, err := st.Conv[0](cty.TupleVal([]cty.Value{cty.StringVal("other"), cty.NumberIntVal(77)}))
+			must(err)
+			return cty.TupleVal([]cty.Value{a, b})
+		})
+	})
+	add("V4=Conv1(map k1,k2) then Conv1(V4map): a retained map->object conversion", "", true, func(st *immState) (cty.Value, bool) {
+		return guard(func() cty.Value {
+			a, err := st.Conv[1](cty.MapVal(map[string]cty.Value{"k1": cty.StringVal("p"), "k2": cty.StringVal("q")}))
+			must(err)
+			b, err := st.Conv[1](cty.MapVal(map[string]cty.Value{"k1": cty.StringVal("a"), "k2": cty.StringVal("é")}))
+			must(err)
+			return cty.TupleVal([]cty.Value{a, b})
+		})
+	})
+	add("V4=Unify(list(dyn), tuple3) / Unify(tuple3, set(dyn), dyn) / Unify(T0,T1,map)", "", true, func(st *immState) (cty.Value, bool) {
+		return guard(func() cty.Value {
+			sig := func(t cty.Type, cs []convert.Conversion) cty.Value {
+				if t == cty.NilType {
+					return cty.StringVal("no common type")
+				}
+				return cty.StringVal(fmt.Sprintf("%s/%d", tsOf(t).Canon(), len(cs)))
+			}
+			t1, c1 := convert.Unify([]cty.Type{cty.List(cty.DynamicPseudoType), cty.Tuple([]cty.Type{cty.List(cty.Bool), cty.Number, cty.String})})
+			t2, c2 := convert.Unify([]cty.Type{cty.Tuple([]cty.Type{cty.Number, cty.Bool, cty.String}), cty.Set(cty.DynamicPseudoType), cty.DynamicPseudoType})
+			t3, c3 := convert.UnifyUnsafe([]cty.Type{st.T[0], st.T[1], cty.Map(cty.String)})
+			return cty.TupleVal([]cty.Value{sig(t1, c1), sig(t2, c2), sig(t3, c3)})
+		})
+	})
+	add("V4=V5.Divide(0) (+Inf)", "", true, func(st *immState) (cty.Value, bool) {
+		return guard(func() cty.Value { return st.V[5].Divide(cty.Zero) })
+	})
+	add("V4=Zero.Negate() / NumberIntVal(0)", "", true, func(st *immState) (cty.Value, bool) {
+		return guard(func() cty.Value {
+			return cty.TupleVal([]cty.Value{cty.Zero.Negate(), cty.NumberIntVal(0), cty.NegativeInfinity})
+		})
+	})
+	add("V4=GetAttrPath(a).IndexInt(0) extended twice (paths as values)", "", true, func(st *immState) (cty.Value, bool) {
+		return guard(func() cty.Value {
+			base := cty.GetAttrPath("a").IndexInt(0).GetAttr("x")
+			p1 := base.GetAttr("b")
+			p2 := base.GetAttr("c")
+			p3 := base.IndexString("k")
+			return cty.StringVal(pathStr(p1) + " " + pathStr(p2) + " " + pathStr(p3) + " " + pathStr(base))
+		})
+	})
+	add("V4=slice(tuple,0,2) then concat type with an unknown first tuple", "", true, func(st *immState) (cty.Value, bool) {
+		return guard(func() cty.Value {
+			tup := cty.TupleVal([]cty.Value{cty.StringVal("a"), cty.NumberIntVal(1), cty.True})
+			sl, err := stdlib.Slice(tup, cty.Zero, cty.NumberIntVal(2))
+			must(err)
+			cc, err := stdlib.Concat(cty.UnknownVal(sl.Type()), cty.TupleVal([]cty.Value{cty.False}))
+			must(err)
+			cc2, err := stdlib.Concat(cty.UnknownVal(sl.Type()), cty.TupleVal([]cty.Value{cty.StringVal("z"), cty.Zero}))
+			must(err)
+			return cty.TupleVal([]cty.Value{sl, cc, cc2, tup})
+		})
+	})
 	// --- accessor, then mutate the returned Go data
+	add("mutate V4.AsBigFloat() (any number, also infinities and zeros) and PositiveInfinity.AsBigFloat()", "", false, func(st *immState) (cty.Value, bool) {
+		return guard(func() cty.Value {
+			clobber := func(v cty.Value) {
+				u, _ := v.Unmark()
+				if u.Type() == cty.Number && u.IsKnown() && !u.IsNull() {
+					f := u.AsBigFloat()
+					f.SetInt64(7).Neg(f)
+				}
+			}
+			clobber(st.V[4])
+			u, _ := st.V[4].Unmark()
+			if u.IsKnown() && !u.IsNull() && u.CanIterateElements() && !u.Type().IsSetType() {
+				for it := u.ElementIterator(); it.Next(); {
+					_, e := it.Element()
+					clobber(e)
+				}
+			}
+			clobber(cty.PositiveInfinity)
+			clobber(cty.NegativeInfinity)
+			clobber(cty.Zero)
+			return cty.NilVal
+		})
+	})
 	add("mutate V5.AsBigFloat()", "", false, func(st *immState) (cty.Value, bool) {
 		return guard(func() cty.Value {
 			f := st.V[5].AsBigFloat()
@@ -386,7 +522,12 @@ func c20Ops() []immOp {
 		return guard(func() cty.Value { mutateSlice(st.S[0].Values()); return cty.NilVal })
 	})
 	add("mutate T0.AttributeTypes() copy? (read-only accessor: not mutated) / T1.OptionalAttributes read", "", false, func(st *immState) (cty.Value, bool) {
-		return guard(func() cty.Value { _ = st.T[0].AttributeTypes(); _ = st.T[1].OptionalAttributes(); _ = st.T[1].WithoutOptionalAttributesDeep(); return cty.NilVal })
+		return guard(func() cty.Value {
+			_ = st.T[0].AttributeTypes()
+			_ = st.T[1].OptionalAttributes()
+			_ = st.T[1].WithoutOptionalAttributesDeep()
+			return cty.NilVal
+		})
 	})
 	// --- constructor keeps nothing of its argument: the argument is retained
 	// in G and clobbered by a LATER operation
@@ -440,6 +581,51 @@ func c20Ops() []immOp {
 			un, pvm := st.V[1].UnmarkDeepWithPaths()
 			st.G.pvm = pvm
 			return un.MarkWithPaths(pvm)
+		})
+	})
+	// the retained arguments handed to the library once more: it must not modify them
+	add("V4=V1un.MarkWithPaths(retained G.pvm) again", "", true, func(st *immState) (cty.Value, bool) {
+		return guard(func() cty.Value {
+			if st.G.pvm == nil {
+				panic("nothing retained")
+			}
+			un, _ := st.V[1].UnmarkDeep()
+			return un.MarkWithPaths(st.G.pvm)
+		})
+	})
+	add("V4=TupleVal/ListVal/SetVal(retained G.sl) again", "", true, func(st *immState) (cty.Value, bool) {
+		return guard(func() cty.Value {
+			if st.G.sl == nil {
+				panic("nothing retained")
+			}
+			t := cty.TupleVal(st.G.sl)
+			out := []cty.Value{t}
+			if l, ok := guard(func() cty.Value { return cty.ListVal(st.G.sl) }); ok {
+				out = append(out, l)
+			}
+			if l, ok := guard(func() cty.Value { return cty.SetVal(st.G.sl) }); ok {
+				out = append(out, l)
+			}
+			return cty.TupleVal(out)
+		})
+	})
+	add("V4=ObjectVal/MapVal(retained G.m), WithMarks(retained G.marks) again", "", true, func(st *immState) (cty.Value, bool) {
+		return guard(func() cty.Value {
+			if st.G.m == nil && st.G.marks == nil {
+				panic("nothing retained")
+			}
+			out := []cty.Value{}
+			if st.G.m != nil {
+				out = append(out, cty.ObjectVal(st.G.m))
+				if l, ok := guard(func() cty.Value { return cty.MapVal(st.G.m) }); ok {
+					out = append(out, l)
+				}
+			}
+			if st.G.marks != nil {
+				u, _ := st.V[5].Unmark()
+				out = append(out, u.WithMarks(st.G.marks), st.V[1].WithMarks(st.G.marks, cty.NewValueMarks("q")))
+			}
+			return cty.TupleVal(out)
 		})
 	})
 	add("clobber retained arguments G", "G", false, func(st *immState) (cty.Value, bool) {
@@ -587,9 +773,9 @@ type immSys struct {
 	ops []immOp
 }
 
-func (s *immSys) NumOps() int          { return len(s.ops) }
-func (s *immSys) OpName(i int) string  { return s.ops[i].name }
-func (s *immSys) New() E2Inst          { return &immInst{sys: s, st: newImmState()} }
+func (s *immSys) NumOps() int         { return len(s.ops) }
+func (s *immSys) OpName(i int) string { return s.ops[i].name }
+func (s *immSys) New() E2Inst         { return &immInst{sys: s, st: newImmState()} }
 
 type immInst struct {
 	sys *immSys
@@ -724,8 +910,15 @@ func (in *immInst) compare(op immOp, before, after map[string]string, obsBefore,
 	sort.Strings(gnames)
 	for _, n := range gnames {
 		if gBefore[n] != gAfter[n] {
-			report("writes-package-variable", op.name+" -> "+n, fmt.Sprintf("%s changed package-level variable %s", op.name, n))
 			gBaseline = gAfter
+			if pkg := strings.SplitN(n, ".", 2)[0]; pkgHasSyncVars(pkg) {
+				// the package owns synchronisation objects, so the write may be protected by
+				// one; this binary cannot tell.  The schedule engine can (its shims know which
+				// locks a thread holds at the statement that writes) and decides it.
+				report("__class", "global-write-in-package-with-synchronisation-objects", "")
+				continue
+			}
+			report("writes-package-variable", op.name+" -> "+n, fmt.Sprintf("%s changed package-level variable %s (the package has no synchronisation object that could protect it)", op.name, n))
 		}
 	}
 }
@@ -749,8 +942,40 @@ func runC20(c *Ctx) {
 		ng += len(vars)
 	}
 	c.Note("package_level_variables", fmtInt(ng))
+	// coverage of the schedule engine (run.sh runs it first, in its own binary)
+	if p := os.Getenv("VERIF_SCHED_EVIDENCE"); p != "" {
+		var ev struct {
+			Coverage map[string]interface{} `json:"coverage"`
+			WallS    float64                `json:"wall_s"`
+		}
+		if b, err := os.ReadFile(p); err == nil && json.Unmarshal(b, &ev) == nil {
+			c.Note("schedule_engine", "E4 controlled scheduler at statement granularity (tools/genyield + mc/c20sched.go)")
+			for _, k := range []string{"states", "transitions", "evaluations", "exhaustive", "scenarios", "thread_bodies", "full_enumeration_when_statement_boundaries_at_most", "preemption_bound_2_when_statement_boundaries_at_most", "outcome_classes", "violations_total"} {
+				if v, ok := ev.Coverage[k]; ok {
+					vb, _ := json.Marshal(v)
+					c.Note("schedule_"+k, string(vb))
+				}
+			}
+			c.Note("schedule_wall_s", fmt.Sprintf("%.1f", ev.WallS))
+		} else {
+			c.Note("schedule_engine", "no result (the scheduler binary did not run or failed)")
+		}
+	} else {
+		c.Note("schedule_engine", "not run in this invocation")
+	}
 	sys := &immSys{ops: c20Ops()}
 	c.Note("operation_alphabet", fmtInt(len(sys.ops)))
 	exploreE2(c, sys, depth, "history.")
 	c20Concurrent(c, sys)
+}
+
+// pkgHasSyncVars reports whether a go-cty package declares a package-level variable that is
+// or contains a synchronisation object (sync.Mutex, sync.Pool, sync.Map, atomics, ...).
+func pkgHasSyncVars(pkg string) bool {
+	for _, ptr := range packageGlobals()[pkg] {
+		if t := reflect.TypeOf(ptr); t != nil && t.Kind() == reflect.Ptr && typeHasSync(t.Elem(), 0) {
+			return true
+		}
+	}
+	return false
 }
